@@ -188,7 +188,10 @@ def prove_identity(lhs, rhs, timeout_s=90):
         old = signal.signal(signal.SIGALRM, _alarm)
     except ValueError:                      # not in the main thread: no time limit available
         return _prove_identity(lhs, rhs)
-    signal.alarm(int(timeout_s))
+    t_start = time.time()
+    outer = signal.alarm(int(timeout_s))          # seconds that were left on an enclosing alarm (the per-case wall-clock limit)
+    if outer and outer < timeout_s:
+        signal.alarm(outer)
     try:
         return _prove_identity(lhs, rhs)
     except _Timeout:
@@ -196,6 +199,8 @@ def prove_identity(lhs, rhs, timeout_s=90):
     finally:
         signal.alarm(0)
         signal.signal(signal.SIGALRM, old)
+        if outer:
+            signal.alarm(max(1, int(outer - (time.time() - t_start))))
 
 
 def _prove_identity(lhs, rhs):
